@@ -1,5 +1,5 @@
 PROP = {
-    "groups": ["names"],
+    "groups": ["names", "dupnames"],
     "rule": "real receiver name handling (recvFileName over the wire, createFile, unmarshalSourceFile+createDirOrFile with "
             "truncate on/off, archiveFileWriter.Write headers incl. nested, deleteCreatedFiles, getNewName) in real directory "
             "trees <private mktemp root>/l1/../l8/r/sb/{dest,outside,evil} (11 levels deep, at most 6 '..' per name, so that a tree "
@@ -9,7 +9,14 @@ PROP = {
             "(relative paths, types, bytes, mtimes) before, after every message and after the deletion are turned into an effect "
             "list and compared with the model's effect log, per-message accept/reject and chosen name, createdFiles, deleted list "
             "and both trees; filepath.Join itself is compared with the model's join; non-trivial = a message was refused, renamed, "
-            "something was deleted or a full series was present; distinct = distinct input line",
+            "something was deleted or a full series was present; distinct = distinct input line. Chain strata of the names group: "
+            "ONE name arrives 52-65 times in a row, or the destination already holds name, name.0 .. name.(L-1) with L up to 101 "
+            "(counters beyond 47 and into three digits), the name drawn from names with fmt verbs (%[1]c %c %d %s %v %% %5d %x) "
+            "that checkFileName accepts; oracle fresh-shape (local name = name or name.N, N the first free decimal counter). "
+            "Group dupnames: the real checkDuplicateNames on hand-built scan lists and on the real scan of real trees vs "
+            "NamesDup.nd_check, oracles accepted => joined relative names pairwise distinct, refused => first repeated name; end "
+            "to end with -y, both directions, protocols 1-4, plain and directory mode: two different sources with one destination "
+            "name are refused with nothing written (or both arrive), distinct names pass, the same path twice is refused",
     "trusted": ["modelled, not verified: json.Unmarshal into sourceFile (an arbitrary function `decode` in every theorem); the "
                 "operating system's path resolution, open/mkdir/unlink (Model/Fs.v transcribes Linux behaviour for a process that "
                 "may do everything: ENOENT vs ENOTDIR/ENAMETOOLONG/EINVAL, NAME_MAX 255) — compared with the real kernel by the "
@@ -25,7 +32,11 @@ TEXT = {
             "JSON decoder and every sequence of arbitrary NAME strings / path lists / archive headers, with or without the final "
             "deletion, every path created, opened for writing, truncated or removed lies strictly inside the destination and every "
             "other path keeps its node and bytes; a name with an empty, '.', '..' element or a '/' is refused with the state "
-            "unchanged. The same model without the validation (the code before the fix) is refuted by '../x'. The model is tied to "
+            "unchanged. The same model without the validation (the code before the fix) is refuted by '../x'. The fresh name derived from a "
+            "validated name is the name or name.<decimal counter>, again a single path element, whatever bytes (fmt verbs) "
+            "the name has. With overwrite requested the scan list is accepted by checkDuplicateNames exactly when its "
+            "destination-relative names are pairwise distinct (hence distinct destination paths), a refusal names the first "
+            "repeated one and hands nothing to sendFiles (both call sites pinned). The model is tied to "
             "the code by regenerated constants (limits, rejected literals, and where checkFileName is called) and by differential "
             "execution against the real functions in real directory trees.",
     "note": "Trusted: Coq kernel, gen translator, ExtrOcamlBasic extraction, OCaml driver, Go harness. Modelled not verified: JSON "
